@@ -128,7 +128,9 @@ func c20Cases(c *Ctx, n int) []jsCase {
 			dist := int64(rng.Intn(int(2*skew+5))) - int64(skew) - 2
 			x := ctr + uint64(dist)
 			if dist < 0 && ctr < uint64(-dist) {
-				x = ctr
+				if rng.Bool() {
+					x = ctr
+				} // else: the code of the wrapped counter 2^64-d, which no window below 0 contains
 			}
 			code := ref.HOTP(key, x, d, a)
 			_, want := ref.HOTPWindow(key, ctr, skew, d, a)[code]
@@ -136,6 +138,16 @@ func c20Cases(c *Ctx, n int) []jsCase {
 		case 3:
 			period := uint64(1 + rng.Intn(3600))
 			skew := uint64(rng.Intn(11))
+			if rng.Intn(5) == 0 && skew > 0 {
+				// close to the epoch (window reaches below step 0): the oracle is the native library's own verdict
+				ts := uint64(rng.Intn(int(skew*period) + 1))
+				step := ts / period
+				dist := int64(rng.Intn(int(2*skew+3))) - int64(skew) - 1
+				code := ref.HOTP(key, step+uint64(dist), d, a) // wraps below 0 exactly as uint64 arithmetic does
+				nat, _ := otp.ValidateTOTP(strings.TrimSpace(sec), code, time.Unix(int64(ts), 0), &otp.Param{Digits: otp.Digits(d), Algorithm: otp.Algorithm(a), Skew: uint(skew), Period: uint(period)})
+				add(jsCase{Fn: "validateTOTP", Args: []jsArg{sArg(sec), sArg(code), nArg(float64(ts)), sArg(ds), sArg(as), nArg(float64(skew)), nArg(float64(period))}, Want: fmt.Sprint(nat), Note: fmt.Sprintf("timestamp %d within skew*period of the epoch, code of step %+d (mod 2^64), skew %d; expected = native library verdict", ts, int64(step)+dist, skew)})
+				continue
+			}
 			ts := jsCounter(rng)
 			if ts/period < skew+3 {
 				ts += (skew + 3) * period
